@@ -88,6 +88,8 @@ def random_history(args):
                 out, exc = sess.step(*call)
             except am.Skip:
                 continue
+            if getattr(sess, 'alt', None) and out == 'TypeError' and ev['op'] == 'RT_Call':
+                ev['i'] = am.NONINT      # a NumPy integer was refused like any non-integer
             o = sess.observe(reads=False)
             ev['out'] = 'ok' if out == 'ok' else 'Raises'
             ev['post'] = abstract_post(o, ev['out'])
